@@ -18,7 +18,7 @@ DECIDES = ("Decided: the generator's typing obligations at the sites where a typ
            "the receiver's / superclass's type arguments before they are used, that wildcard sinks get a bottom value, "
            "that inheritance obligations are discharged (no final superclass, every inherited abstract function "
            "implemented in a regular class, overrides copy name / parameters / substituted return type), and that an "
-           "expected type is only ever narrowed with find_subtypes (include_self) under the caller's subtype flag.")
+           "expected type is only ever narrowed with find_subtypes (include_self) under the caller's subtype flag. Also: a bottom constant is never forced for a primitive type; type parameters re-purposed for an existing type's variables get that variable's bound on every path; at most one vararg per parameter list (latched store); nothing leaves between computing the inherited abstract functions and implementing them; an overriding field is exactly as final as the overridden one; the built-in types declare only supertypes of their language's lattice.")
 NOT_DECIDED = ("that a whole generated program is well-typed: that also depends on the values computed by the type "
                "relation, the searches and unification (C06-C10), which no rule here establishes.")
 
